@@ -15,7 +15,10 @@ Strs(n) == UNION { [1..k -> Range(Alphabet)] : k \in 0..n }
 Payloads == { <<"x", SQ, "]", " ", "=", " ", "_", "_", "v", "(", ")", " ", "#">>,
               <<"a", SQ, ")", ";", "_", "_", "v", "(", ")", "#">>,
               <<BS>>, <<"a", BS>>, <<"{", "0", "}">>, <<"%", "s">> }
-Positions == {"alias", "aalias", "cfgalias", "tdkey", "forbid", "literal", "enumvalue", "discrfield", "allowname"}
+\* the alias positions are crossed with the emission paths of to_dict: the single dict literal ("alias"), the per-field
+\* kwargs[...] assignments (omit_none with a converted Optional field: "aliasopt"; omit_default: "aliasdflt") and the
+\* by_alias keyword of TO_DICT_ADD_BY_ALIAS_FLAG ("aliasflag": called as to_dict(by_alias=True))
+Positions == {"alias", "aalias", "cfgalias", "tdkey", "forbid", "literal", "enumvalue", "discrfield", "allowname", "aliasopt", "aliasdflt", "aliasflag"}
 
 \* ---- level 1: lexing theorems over all strings of length <= 4
 ReprSafe   == kind = "start" => \A x \in Strs(4) : Denotes(Repr(x), x)
@@ -36,6 +39,13 @@ ClassAt(p, str) ==
     [] p = "cfgalias" -> <<"dc", "K", << F(<<"int">>, <<"req">>, <<>>) >>, << <<"serialize_by_alias", TRUE>>, <<"aliases", << <<"f", str>> >> >> >> >>
     [] p = "allowname" -> <<"dc", "K", << F(<<"int">>, <<"req">>, << <<"alias", str>> >>) >>,
                             << <<"serialize_by_alias", TRUE>>, <<"allow_deserialization_not_by_alias", TRUE>> >> >>
+    [] p = "aliasopt" -> <<"dc", "K", << F(<<"opt", <<"date">> >>, <<"val", None>>, << <<"alias", str>> >>),
+                                          <<"g", <<"opt", <<"int">> >>, <<"val", None>>, <<>> >> >>,
+                            << <<"serialize_by_alias", TRUE>>, <<"omit_none", TRUE>> >> >>
+    [] p = "aliasdflt" -> <<"dc", "K", << F(<<"int">>, <<"val", I(0)>>, << <<"aalias", str>> >>),
+                                           <<"g", <<"int">>, <<"val", I(1)>>, <<>> >> >>,
+                            << <<"serialize_by_alias", TRUE>>, <<"omit_default", TRUE>> >> >>
+    [] p = "aliasflag" -> <<"dc", "K", << F(<<"int">>, <<"req">>, <<>>) >>, << <<"flags", {"by_alias_flag"}>>, <<"aliases", << <<"f", str>> >> >> >> >>
     [] p = "forbid"   -> <<"dc", "K", << F(<<"int">>, <<"req">>, << <<"alias", str>> >>) >>, << <<"serialize_by_alias", TRUE>>, <<"forbid_extra_keys", TRUE>> >> >>
     [] p = "tdkey"    -> <<"dc", "K", << F(<<"tdict", "TD", << <<str, <<"int">>, TRUE>> >> >>, <<"req">>, <<>>) >>, <<>> >>
     [] p = "literal"  -> <<"dc", "K", << F(<<"literal", << S(str), S("other") >> >>, <<"req">>, <<>>) >>, <<>> >>
@@ -43,7 +53,9 @@ ClassAt(p, str) ==
     [] p = "discrfield" -> <<"dc", "K", << F(<<"discr", RootD(str), << <<"field", str>>, <<"include_subtypes", TRUE>> >> >>, <<"req">>, <<>>) >>, <<>> >>
 
 ValueAt(p, str) ==
-  CASE p \in {"alias", "aalias", "cfgalias", "forbid", "allowname"} -> <<"obj", "K", <<I(7)>> >>
+  CASE p \in {"alias", "aalias", "cfgalias", "forbid", "allowname", "aliasflag"} -> <<"obj", "K", <<I(7)>> >>
+    [] p = "aliasopt" -> <<"obj", "K", << <<"date", 2024, 1, 2>>, None>> >>
+    [] p = "aliasdflt" -> <<"obj", "K", <<I(7), I(1)>> >>
     [] p = "tdkey" -> <<"obj", "K", << Dct(<< <<S(str), I(7)>> >>) >> >>
     [] p = "literal" -> <<"obj", "K", << S(str) >> >>
     [] p = "enumvalue" -> <<"obj", "K", << <<"enum", "E", "M">> >> >>
@@ -54,7 +66,7 @@ Next == kind = "start" /\ s' \in Strs(MaxLen) \cup Payloads /\ pos' \in Position
 
 Str == Join(s)
 T == ClassAt(pos, Str)
-Cx == DefaultCx
+Cx == IF pos = "aliasflag" THEN [DefaultCx EXCEPT !.by_alias = "yes"] ELSE DefaultCx
 Wire == IF pos = "discrfield" THEN <<"skip">> ELSE Pack(T, Cx, ValueAt(pos, Str))
 Input == IF pos = "discrfield"
          THEN Dct(<< <<S("f"), Dct(<< <<S("v"), I(0)>>, <<S(Str), S("a")>> >>)>> >>)
@@ -67,7 +79,8 @@ Dec == IF pos = "discrfield"
 \* the key / value used at the position is exactly the string
 ExactlyTheString ==
   kind = "case" =>
-    CASE pos \in {"alias", "aalias", "cfgalias", "forbid", "allowname"} -> Wire = Dct(<< <<S(Str), I(7)>> >>)
+    CASE pos \in {"alias", "aalias", "cfgalias", "forbid", "allowname", "aliasflag", "aliasdflt"} -> Wire = Dct(<< <<S(Str), I(7)>> >>)
+      [] pos = "aliasopt" -> Wire = Dct(<< <<S(Str), S("2024-01-02")>> >>)
       [] pos = "tdkey" -> Wire = Dct(<< <<S("f"), Dct(<< <<S(Str), I(7)>> >>)>> >>)
       [] pos \in {"literal", "enumvalue"} -> Wire = Dct(<< <<S("f"), S(Str)>> >>)
       [] OTHER -> TRUE
